@@ -12,7 +12,9 @@ for f in sorted(glob.glob(os.path.join(here, 'seeded', '*', 'meta.json'))):
     if len(s) > 230:
         s = s[:227].rsplit(' ', 1)[0] + ' …'
     first = 'caught' if not m.get('history') else 'missed → check strengthened'
-    if m.get('detected_by_other'):
+    if m.get('open'):
+        first = 'missed — OPEN (not answered before the end of the session)'
+    elif m.get('detected_by_other'):
         first = 'not reported by this check (outside the property\'s quantifier); reported by ' + ', '.join(m['detected_by_other'])
     elif m.get('history') and isinstance(m['history'], list) and isinstance(m['history'][0], dict) and str(m['history'][0].get('first_run','')).startswith('caught'):
         first = 'caught (by a replayed witness only) → check strengthened'
